@@ -6,8 +6,8 @@ compared with and as the generator of concrete replays.  The Lean side (Barril/M
 implements the same grammar; the deciding computation is the Lean one (`decide +kernel`).
 
 Written precision of a literal: write its decimal value as m * 10^e with m an integer not divisible
-by 10.  The literal is written to one part in |m|; mantissas below 100 (powers of ten, 60, 3600, 1.8,
-...) are exact.  Never tighter than one unit in the last written place, so a row that agrees with the
+by 10.  The literal is written to one part in |m|; mantissas below 100 (powers of ten, 1.8, ...) and whole
+numbers below 100000 (60, 3600, 86400, 1852, 4184, ...) are exact.  Never tighter than one unit in the last written place, so a row that agrees with the
 product of its parts to the digits the table shows is never flagged.
 """
 import re
@@ -38,8 +38,13 @@ def mantissa(fr):
 
 
 def rel_precision(fr):
+    """written relative precision of one literal; 0 = exact.  Mantissas below 100 (powers of ten, 1.8, ...) and
+    whole numbers below 100000 (60, 3600, 86400, 1852, 4184: definitions, not roundings) are exact."""
+    fr = F(fr)
     m = mantissa(fr)
-    return F(0) if m < 100 else F(1, m)
+    if m < 100 or (fr.denominator == 1 and abs(fr) < 100000):
+        return F(0)
+    return F(1, m)
 
 
 SI = [("y", -24), ("z", -21), ("a", -18), ("f", -15), ("p", -12), ("n", -9), ("u", -6), ("m", -3), ("c", -2),
